@@ -559,3 +559,57 @@ class _Ternary(ast.NodeTransformer):
 
 TRANSFORMS["split_chains"] = _SplitChains
 TRANSFORMS["ternaries"] = _Ternary
+
+
+class _ReorderDefs(ast.NodeTransformer):
+    """every maximal run of consecutive function definitions in a class body or a module is written in reverse order"""
+    def _rev(self, body):
+        out, run = [], []
+        for s in body:
+            if isinstance(s, (ast.FunctionDef, ast.AsyncFunctionDef)) and not any("setter" in ast.unparse(d) or "getter" in ast.unparse(d) for d in s.decorator_list):
+                run.append(s)
+            else:
+                out += run[::-1]
+                run = []
+                out.append(s)
+        return out + run[::-1]
+
+    def visit_ClassDef(self, node):
+        self.generic_visit(node)
+        node.body = self._rev(node.body)
+        return node
+
+    def visit_Module(self, node):
+        self.generic_visit(node)
+        node.body = self._rev(node.body)
+        return node
+
+
+class _UnpackCalls(ast.NodeTransformer):
+    """`a, b, c = f(...)` written `u = f(...); a = u[0]; b = u[1]; c = u[2]` (plain names on the left, a call that returns a tuple on the right)"""
+    n = 0
+
+    def generic_visit(self, node):
+        super().generic_visit(node)
+        if isinstance(node, (ast.ClassDef, ast.Module)):
+            return node
+        for f in ("body", "orelse", "finalbody"):
+            v = getattr(node, f, None)
+            if isinstance(v, list) and v and isinstance(v[0], ast.stmt):
+                out = []
+                for s in v:
+                    if isinstance(s, ast.Assign) and len(s.targets) == 1 and isinstance(s.targets[0], ast.Tuple) and isinstance(s.value, ast.Call) \
+                            and all(isinstance(e, ast.Name) for e in s.targets[0].elts):
+                        _UnpackCalls.n += 1
+                        u = f"unpacked_{_UnpackCalls.n}"
+                        out.append(ast.Assign(targets=[ast.Name(id=u, ctx=ast.Store())], value=s.value, type_comment=None))
+                        for k, e in enumerate(s.targets[0].elts):
+                            out.append(ast.Assign(targets=[e], value=ast.Subscript(value=ast.Name(id=u, ctx=ast.Load()), slice=ast.Constant(value=k), ctx=ast.Load()), type_comment=None))
+                    else:
+                        out.append(s)
+                setattr(node, f, out)
+        return node
+
+
+TRANSFORMS["reordered_definitions"] = _ReorderDefs
+TRANSFORMS["unpacked_calls"] = _UnpackCalls
